@@ -5,4 +5,17 @@ cd "$(dirname "$0")"
 export CARGO_NET_OFFLINE=true
 mkdir -p .work evidence replay/out
 CARGO_TARGET_DIR="$PWD/.work/extract-target" cargo build --release --offline --manifest-path tools/extract/Cargo.toml
+# warm the caches of the native replay crate and of the Kani harness crate (both are rebuilt
+# against /repo's current tree by every check that needs them; failure here is not fatal)
+python3 - <<'PY' || true
+import sys
+sys.path.insert(0, "lib")
+import witness, kanirun
+witness.build(print)
+try:
+    kanirun.prepare(print)
+    kanirun.codegen(print)
+except Exception as e:
+    print("kani warm-up skipped:", e)
+PY
 echo "setup ok"
